@@ -92,6 +92,25 @@ func genFullMeta(t *rapid.T, c *BuildCase) {
 	m.License = opt("license", "MIT", "Apache-2.0", "GPL-2.0-or-later WITH exception")
 	m.Section = opt("section", "utils", "net", "default")
 	m.Priority = opt("priority", "extra", "optional", "required")
+	// single-line values written as YAML block scalars (`maintainer: >`) keep a trailing line break
+	if rapid.IntRange(0, 5).Draw(t, "blockscalar?") == 0 {
+		switch rapid.IntRange(0, 3).Draw(t, "blockscalar.field") {
+		case 0:
+			m.Maintainer += "\n"
+		case 1:
+			if m.Homepage != "" {
+				m.Homepage += "\n"
+			}
+		case 2:
+			if m.License != "" {
+				m.License += "\n"
+			}
+		case 3:
+			if m.Section != "" {
+				m.Section += "\n"
+			}
+		}
+	}
 	m.Description = genDescription(t)
 	rc := &relCounter{}
 	m.Replaces = rc.list(t, "replaces", 3)
